@@ -178,7 +178,6 @@ var propSess = hx.Prop[SCase]{
 	Quick: 250, Thorough: 1500,
 	Gen: func(t *rapid.T) SCase {
 		c := SCase{Cfg: cfgGen.Draw(t, "cfg")}
-		c.Cfg.Naming = "full"
 		n := rapid.IntRange(1, 3).Draw(t, "ntxn")
 		for i := 0; i < n; i++ {
 			x := STxn{}
@@ -187,7 +186,9 @@ var propSess = hx.Prop[SCase]{
 			}
 			nr := rapid.IntRange(0, 7).Draw(t, "nrcpt")
 			for j := 0; j < nr; j++ {
-				x.Rcpts = append(x.Rcpts, fmt.Sprintf("r%d@%s", j, domGen.Draw(t, "rdom")))
+				// few distinct local parts: two recipients of one transaction often share one across
+				// domains with different store verdicts (one mailbox under local naming)
+				x.Rcpts = append(x.Rcpts, fmt.Sprintf("r%d@%s", rapid.IntRange(0, 2).Draw(t, "rlocal"), domGen.Draw(t, "rdom")))
 			}
 			c.Txns = append(c.Txns, x)
 		}
@@ -288,10 +289,15 @@ func runSess(c SCase) *hx.Outcome {
 		}
 		from, to, subj := msg.Expect(x.Sender, accepted)
 		for _, rc := range accepted {
-			l, dom := hx.SplitAddr(rc)
+			_, dom := hx.SplitAddr(rc)
 			if hx.RefStore(c.Cfg, dom) {
 				o.Class("stored")
-				model.Add(&hx.EMsg{Mailbox: l + "@" + canonDomain(dom), From: from, To: to, Subject: subj, Sender: x.Sender, Helo: "c.test", Data: tx, NotBefo: t0, NotAfter: time.Now()})
+				mb, merr := w.MailboxFor(rc)
+				if merr != nil {
+					o.Failf(pid+":harness", "mailbox for %q: %v", rc, merr)
+					return o
+				}
+				model.Add(&hx.EMsg{Mailbox: mb, From: from, To: to, Subject: subj, Sender: x.Sender, Helo: "c.test", Data: tx, NotBefo: t0, NotAfter: time.Now()})
 			} else {
 				o.Class("discarded")
 			}
@@ -305,15 +311,6 @@ func runSess(c SCase) *hx.Outcome {
 		o.Failf(pid+":store-decision", "at end: %v", err)
 	}
 	return o
-}
-
-// canonDomain: the mailbox name's domain spelling (lower case; IPv6 tag canonical).
-func canonDomain(d string) string {
-	d = strings.ToLower(d)
-	if strings.HasPrefix(d, "[ipv6:") {
-		d = "[IPv6:" + d[6:]
-	}
-	return d
 }
 
 func TestProp(t *testing.T) {
